@@ -52,5 +52,13 @@ bool calShape(uint64_t t, uint64_t p, std::vector<bool> &isLeft) {
     isLeft.assign(down.rbegin(), down.rend());
     return true;
 }
+std::vector<CalLink> coherentCalLinks(uint64_t t, uint64_t p, uint64_t salt) {
+    std::vector<CalLink> down; if (t > p) return down; unsigned __int128 n = (unsigned __int128)p + 1; uint64_t lo = 0;
+    auto nodeHash = [&](uint64_t first, unsigned __int128 count) { Bytes d; for (int i = 7; i >= 0; i--) d.push_back((uint8_t)(salt >> (8 * i))); for (int i = 7; i >= 0; i--) d.push_back((uint8_t)(first >> (8 * i))); uint64_t c = (uint64_t)count; for (int i = 7; i >= 0; i--) d.push_back((uint8_t)(c >> (8 * i))); return imprint(1, d); };
+    while (n > 1) { unsigned __int128 k = 1; while (k * 2 < n) k *= 2;
+        if ((unsigned __int128)(t - lo) < k) { CalLink l; l.isLeft = true; l.sib = nodeHash(lo + (uint64_t)k, n - k); down.push_back(l); n = k; }
+        else { CalLink l; l.isLeft = false; l.sib = nodeHash(lo, k); down.push_back(l); lo += (uint64_t)k; n -= k; } }
+    return std::vector<CalLink>(down.rbegin(), down.rend());
+}
 Bytes legacyId(const std::string &name) { Bytes b(29, 0); b[0] = 3; b[1] = 0; size_t n = name.size() > 25 ? 25 : name.size(); b[2] = (uint8_t)n; for (size_t i = 0; i < n; i++) b[3 + i] = (uint8_t)name[i]; return b; }
 }
